@@ -24,7 +24,11 @@ class C12(LoopCheck):
                     continue
                 c["routes"] = ["file"]
             else:
-                c["every_values"] = [1, 2, 3]
+                c["every_values"] = [0, 1, 2, 3]
+                if c["schedule"] == "fixed2" and c["sampler"] == "MiniPCNSMC":
+                    c2 = dict(c)
+                    c2.update(cadence_via="file", name=c["name"] + "-viafile")
+                    out.append(c2)
             out.append(c)
         # the real Aspire route: config and proposal are written before sampling
         # starts; a fault at every likelihood call, then the file is inspected and
